@@ -392,6 +392,7 @@ func GetZstdReadCloser(zstd zstdimpl.ZstdImpl, f *os.File, expectedSize int64, o
 
 		_, err = f.Seek(0, io.SeekStart)
 		if err != nil {
+			_ = f.Close()
 			return nil, fmt.Errorf("failed to seek to start of file: %w", err)
 		}
 
